@@ -8,6 +8,7 @@ import AquaDrv.MiscOps
 import AquaDrv.C26Ops
 import AquaDrv.C24Ops
 import AquaDrv.C25Ops
+import AquaDrv.C23Ops
 /-! Line-protocol driver of the model: one JSON request per line on stdin, one JSON answer per line. -/
 open Lean Aqua
 
@@ -26,6 +27,9 @@ def dispatch (j : Json) : Json :=
   | "lens" => C24.opLens j
   | "cid" => opCid j
   | "cid_verify" => opCidVerify j
+  | "c23_parse" => C23.opParse j
+  | "c23_validate" => C23.opValidate j
+  | "c23_char_class" => C23.opCharClass j
   | "ping" => Json.mkObj [("pong", true)]
   | op => Json.mkObj [("error", s!"unknown op {op}")]
 
